@@ -273,20 +273,40 @@ def parse_bound(s):
     return int(s)
 
 
-def walk_expressions(node, fn, owner=None):
+def _is_constant_node(node):
+    t = node.get("type", {})
+    if "integer" in t:
+        return t["integer"].get("modulus") == "infinity"
+    if "boolean" in t:
+        return "value" in t["boolean"]
+    if "enumeration" in t:
+        return "value" in t["enumeration"]
+    return False
+
+
+def walk_expressions(node, fn, owner=None, folded=False):
+    """`folded`: the node sits below an expression the compiler treats as a
+    constant.  The back end renders such an expression as a literal and the
+    64-bit gate deliberately does not descend into it, so its subexpressions
+    are not run-time subexpressions (they are still checked for soundness)."""
     if isinstance(node, dict):
+        is_expr = False
         if "type" in node and isinstance(node["type"], dict) and ("integer" in node["type"] or "boolean" in node["type"]
                                                                   or "enumeration" in node["type"]) and (
                 "function" in node or "constant" in node or "field_reference" in node or "constant_reference" in node
                 or "builtin_reference" in node or "boolean_constant" in node):
+            is_expr = True
+            if folded:
+                node["~folded"] = True
             fn(node)
-        for k, v in node.items():
-            if k in ("source_location",):
+        below = folded or (is_expr and "function" in node and _is_constant_node(node))
+        for k, v in list(node.items()):
+            if k in ("source_location", "~folded"):
                 continue
-            walk_expressions(v, fn)
+            walk_expressions(v, fn, None, below)
     elif isinstance(node, list):
         for v in node:
-            walk_expressions(v, fn)
+            walk_expressions(v, fn, None, folded)
 
 
 def check_ir(ir, rng, text_for_report=""):
@@ -309,7 +329,9 @@ def check_ir(ir, rng, text_for_report=""):
                         his.append(int(ai["maximum_value"]))
                         if ai.get("modulus") != "infinity":
                             nonconst = True
-                if los and nonconst:
+                if los and nonconst and e.get("~folded"):
+                    _st("fit_skipped_below_constant")
+                elif los and nonconst:
                     _st("fit_checked")
                     _st("comparison_fit_checked")
                     L, H = min(los), max(his)
@@ -387,7 +409,9 @@ def check_ir(ir, rng, text_for_report=""):
                         render(e), val, shown, mv, m)))
                     break
         # 64-bit fit of run-time function nodes (from the annotations, as the compiler must guarantee)
-        if "function" in e and mod != "infinity" and lo != float("-inf") and hi != float("inf"):
+        if "function" in e and mod != "infinity" and e.get("~folded"):
+            _st("fit_skipped_below_constant")
+        elif "function" in e and mod != "infinity" and lo != float("-inf") and hi != float("inf"):
             los, his = [lo], [hi]
             for a in e["function"].get("args", []):
                 ai = a.get("type", {}).get("integer")
